@@ -36,10 +36,20 @@ def hist(title, counter, width=12, top=None):
         print(f"    {str(k):<{width}} {v}")
 
 
-def run_seed(exe, seed, n, show):
+def run_seed(exe, seed, n, show, timeout=120):
     cases = riddle_gen.stream(seed, n)
     lines = ["parse " + text.encode("latin-1", "replace").hex() for text, _ in cases]
-    impl, model, aborts, maborts = vlib.run_pair("parse", exe, lines, timeout=900)
+    impl, model, aborts, maborts = vlib.run_pair("parse", exe, lines, timeout=timeout)   # a hang of the C++ shows up as ABORT:rc=timeout
+    # a line on which the harness died is run again on its own: a crash of the C++ reproduces, a kill from outside
+    # (another job's cleanup, the watchdog firing on a loaded machine) does not
+    retried = 0
+    for idx in [k for k, o in enumerate(impl) if o is not None and o.startswith("ABORT")]:
+        o, _ = vlib.run_lines(vlib.impl_cmd(exe), [lines[idx]], timeout=timeout)
+        if o[0] != impl[idx]:
+            retried += 1
+            impl[idx] = o[0]
+    if retried:
+        print(f"  ({retried} ABORT lines did not reproduce when run alone and were replaced by the second run)")
     diffs, ub = [], []
     kinds = collections.Counter()
     outcome = collections.Counter()
@@ -50,8 +60,9 @@ def run_seed(exe, seed, n, show):
     stmts_ok, decls_ok = collections.Counter(), collections.Counter()
     for idx, ((text, meta), i, m) in enumerate(zip(cases, impl, model)):
         kinds[meta["kind"]] += 1
-        depth_all[meta["depth"]] += 1
-        ops_all.update(meta["ops"])
+        if meta["kind"] in ("generated", "mutant"):      # one entry per underlying program (prefixes repeat theirs)
+            depth_all[meta["depth"]] += 1
+            ops_all.update(meta["ops"])
         if m is not None and m.startswith("ub:"):
             ub.append((idx, text, i, m))
             outcome["model: C++ undefined behaviour (not compared)"] += 1
@@ -81,9 +92,9 @@ def run_seed(exe, seed, n, show):
     hist("outcome (implementation)", outcome, 48)
     hist("accepted, by input kind", by_kind_valid, 16)
     hist("error messages hit (implementation)", errors, 100, top=60)
-    hist("max expression depth per program, all generated inputs", depth_all, 4)
+    hist("max expression depth per program, generated programs and the originals of the mutants", depth_all, 4)
     hist("max expression depth per program, accepted unmutated programs", depth_ok, 4)
-    hist("expression forms generated, all inputs (before mutation/truncation)", ops_all, 8)
+    hist("expression forms generated (programs and originals of the mutants)", ops_all, 8)
     hist("expression forms in accepted unmutated programs", ops_ok, 8)
     hist("statement forms in accepted unmutated programs", stmts_ok, 12)
     hist("declaration forms in accepted unmutated programs", decls_ok, 12)
@@ -105,11 +116,12 @@ def main():
     ap.add_argument("--n", type=int, default=20000)
     ap.add_argument("--seeds", type=int, nargs="*", default=[1])
     ap.add_argument("--show", type=int, default=5)
+    ap.add_argument("--timeout", type=int, default=120, help="seconds per chunk of ~n/ncpu lines (watchdog for hangs of the C++)")
     a = ap.parse_args()
     exe = build()
     total_d = total_n = 0
     for s in a.seeds:
-        d, n = run_seed(exe, s, a.n, a.show)
+        d, n = run_seed(exe, s, a.n, a.show, a.timeout)
         total_d += d
         total_n += n
     print(f"TOTAL: {total_n} programs over seeds {a.seeds}: {total_d} differing lines")
